@@ -5,6 +5,7 @@ from symex import (Closure, Fork, GoPanic, Iface, MapRef, Opaque, PathEnd, Ptr, 
                    _PUSHED, is_sym)
 import intrinsics
 from intrinsics import REG, PATTERNS, intr, ZZ
+intrinsics.is_arith = __import__('symex').is_arith
 
 
 def fmt_observe(name, v):
@@ -250,3 +251,103 @@ def zz_note(eng, st, fr, args, ins):
             v = ("dbErr", eng.load(st, v.val))
         print("NOTE", args[0], v)
     return None
+
+
+# ------------------------------------------------------------------------------------ time
+def _mk_time(eng, sec):
+    u = eng.ir.under("time.Time")
+    vals = []
+    for f in u["fields"]:
+        if f["name"] == "ext":
+            vals.append(sec)
+        else:
+            vals.append(eng.zero(f["t"]))
+    return tuple(vals)
+
+
+def _time_sec(eng, t):
+    u = eng.ir.under("time.Time")
+    for i, f in enumerate(u["fields"]):
+        if f["name"] == "ext":
+            return t[i]
+    raise Unsupported("time.Time layout")
+
+
+@intr("time.Now")
+def time_now(eng, st, fr, args, ins):
+    now = eng.fresh(st, "time.now", 64)
+    if is_sym(now):
+        prev = st.world.get("time.last")
+        lo = prev if prev is not None else (z3.BitVecVal(0, 64) if not intrinsics.is_arith(now) else 0)
+        if intrinsics.is_arith(now):
+            st.assume(z3.And(now >= lo, now < (1 << 40)))
+        else:
+            st.assume(z3.And(z3.UGE(now, lo), z3.ULT(now, z3.BitVecVal(1 << 40, 64))))
+        st.world["time.last"] = now
+    return _mk_time(eng, now)
+
+
+@intr("(time.Time).UTC", "(time.Time).Local", "(time.Time).Round", "(time.Time).Truncate")
+def time_utc(eng, st, fr, args, ins):
+    return args[0]
+
+
+@intr("(time.Time).Unix")
+def time_unix(eng, st, fr, args, ins):
+    return _time_sec(eng, args[0])
+
+
+@intr("(time.Time).UnixNano", "(time.Time).UnixMilli")
+def time_unixnano(eng, st, fr, args, ins):
+    raise Unsupported("UnixNano")
+
+
+@intr("time.Unix")
+def time_unix_ctor(eng, st, fr, args, ins):
+    return _mk_time(eng, args[0])
+
+
+@intr("time.Since")
+def time_since(eng, st, fr, args, ins):
+    now = _time_sec(eng, time_now(eng, st, fr, (), ins))
+    return eng.int_binop(st, "-", now, _time_sec(eng, args[0]), 64, True)
+
+
+@intr("(time.Time).Sub")
+def time_sub(eng, st, fr, args, ins):
+    return eng.int_binop(st, "-", _time_sec(eng, args[0]), _time_sec(eng, args[1]), 64, True)
+
+
+@intr("(time.Time).Add")
+def time_add(eng, st, fr, args, ins):
+    return _mk_time(eng, eng.int_binop(st, "+", _time_sec(eng, args[0]), args[1], 64, True))
+
+
+@intr("(time.Time).Before")
+def time_before(eng, st, fr, args, ins):
+    return eng.int_binop(st, "<", _time_sec(eng, args[0]), _time_sec(eng, args[1]), 64, True)
+
+
+@intr("(time.Time).After")
+def time_after(eng, st, fr, args, ins):
+    return eng.int_binop(st, ">", _time_sec(eng, args[0]), _time_sec(eng, args[1]), 64, True)
+
+
+@intr("(time.Time).IsZero")
+def time_iszero(eng, st, fr, args, ins):
+    return eng.eq(_time_sec(eng, args[0]), 0, "int64")
+
+
+@intr("time.Sleep")
+def time_sleep(eng, st, fr, args, ins):
+    return None
+
+
+@intr("(time.Duration).String", "(time.Time).String", "(time.Time).Format")
+def time_string(eng, st, fr, args, ins):
+    return SymStr("opaque", "time")
+
+
+@intr("(time.Duration).Seconds", "(time.Duration).Minutes", "(time.Duration).Hours")
+def dur_seconds(eng, st, fr, args, ins):
+    return 0.0
